@@ -54,6 +54,12 @@ func lastCallName(c *ssa.CallCommon) string {
 		if g, ok := u.X.(*ssa.Global); ok {
 			return g.Name()
 		}
+		// a local variable holding a function value: the variable's name
+		if a, ok := u.X.(*ssa.Alloc); ok && a.Comment != "" {
+			return a.Comment
+		}
+	} else if p, ok := c.Value.(*ssa.Parameter); ok {
+		return p.Name()
 	}
 	return ""
 }
@@ -170,6 +176,12 @@ func (fr *Frame) callValue(st *State, fv *Val, args []*Val, pos token.Pos, sig *
 			res = append(res, r)
 		}
 		return res
+	}
+	if nt, ok := fv.Ty.(*types.Named); ok && nt.Obj().Pkg() != nil && nt.Obj().Pkg().Path() == "context" && nt.Obj().Name() == "CancelFunc" {
+		// a context.CancelFunc cancels its context and does nothing else
+		// (library type; assumed, listed)
+		x.vc.diag("%s: context.CancelFunc value called: assumed to write no program memory", fr.fn.String())
+		return nil
 	}
 	x.vc.diag("%s: call through unknown function value at %s: havoc", fr.fn.String(), x.w.fset.Position(pos))
 	// an unknown closure may write anything it captured
@@ -473,10 +485,10 @@ func (fr *Frame) callWithContract(st *State, c *FuncContract, fn *ssa.Function, 
 	}
 	for i, a := range args {
 		cl, ok := a.X.(*Closure)
-		if !ok || i >= len(pnames) || c.Calls[pnames[i]] != "loop" {
+		if !ok || i >= len(pnames) || (c.Calls[pnames[i]] != "loop" && c.Calls[pnames[i]] != "retry") {
 			continue
 		}
-		fr.callbackLoop(st, cl, pnames[i], env, pos)
+		fr.callbackLoop(st, cl, pnames[i], env, pos, c.Calls[pnames[i]])
 	}
 	// frame
 	if len(c.Assigns) > 0 {
@@ -666,7 +678,13 @@ func resultNames(sig *types.Signature, c *FuncContract) []string {
 // clauses must hold before the first invocation and be preserved by every
 // invocation that returns nil. In clauses, _n is the number of completed
 // invocations and _a0(i), _a1(i) are the arguments of invocation i.
-func (fr *Frame) callbackLoop(st *State, cl *Closure, pname string, env *SpecEnv, pos token.Pos) {
+// Mode "loop": the callee invokes the closure repeatedly and stops at the first
+// error. Mode "retry": the callee may invoke the closure any number of times
+// whatever it returns (a consumer that is called again after a failure); the
+// state afterwards is the state after the last invocation (P_called tells
+// whether there was one, P_err is its result), and the invariants have to be
+// preserved by failing invocations too.
+func (fr *Frame) callbackLoop(st *State, cl *Closure, pname string, env *SpecEnv, pos token.Pos, mode string) {
 	x := fr.x
 	ord := x.w.funcLitOrdinal(cl.fn)
 	var invs []*Clause
@@ -777,6 +795,28 @@ func (fr *Frame) callbackLoop(st *State, cl *Closure, pname string, env *SpecEnv
 		errT = vals[len(vals)-1].L[0]
 	}
 	x.vc.pcNow = st.pc
+	if mode == "retry" {
+		for _, c := range invs {
+			x.oblige(st, "cb-pres", label+": "+c.Text, pos, evalInv(st, tAdd(n, "1"), c), c.Tags, false)
+		}
+		called := x.vc.fresh("cbcalled", sBool)
+		none := pre.clone()
+		none.pc = x.vc.def("pc", sBool, tAnd(pre.pc, tNot(called)))
+		st.pc = x.vc.def("pc", sBool, tAnd(st.pc, called))
+		m := x.mergeStates([]*State{none, st})
+		if m == nil {
+			st.pc = "false"
+			return
+		}
+		*st = *m
+		x.vc.pcNow = st.pc
+		ci.count = x.vc.def("cbcount", sInt, tIte(called, tAdd(n, "1"), "0"))
+		errTy := types.Universe.Lookup("error").Type()
+		env.vars[pname+"_err"] = &Val{Ty: errTy, L: []string{tIte(called, errT, "0")}}
+		env.vars[pname+"_called"] = mkBool(called)
+		env.vars[pname+"_stopped"] = mkBool("false")
+		return
+	}
 	cont := st.clone()
 	cont.pc = x.vc.def("pc", sBool, tAnd(st.pc, tEq(errT, "0")))
 	for _, c := range invs {
@@ -966,7 +1006,7 @@ func (fr *Frame) doAppend(st *State, s, t *Val, pos token.Pos) *Val {
 		// in-place append writes caller-visible memory
 		allowed, rows := x.frameAllow("A_" + typeKey(et) + "_")
 		if !allowed {
-			goal := tOr(tNot(fits), tCmp(">", s.L[0], top.entry.allocTop))
+			goal := tOr(tNot(fits), tCmp(">", s.L[0], fr.entryAllocTop()))
 			for _, r := range rows {
 				goal = tOr(goal, tEq(s.L[0], r))
 			}
@@ -1020,7 +1060,7 @@ func (fr *Frame) sliceWriteFrame(st *State, s *Val, pos token.Pos, what string) 
 	if allowed {
 		return
 	}
-	goal := tCmp(">", s.L[0], top.entry.allocTop)
+	goal := tCmp(">", s.L[0], fr.entryAllocTop())
 	for _, r := range rows {
 		goal = tOr(goal, tEq(s.L[0], r))
 	}
